@@ -86,4 +86,120 @@ def exTok (ty : String) : Tok := { type := ty, value := "", loc := default, sidx
 example : Balanced "{" "}" [exTok "NAME", exTok "{", exTok "NAME", exTok "}"] :=
   .atom _ _ (by decide) (by decide) (.nest (exTok "{") (exTok "}") [exTok "NAME"] [] rfl rfl (.atom _ _ (by decide) (by decide) .nil) .nil)
 
+
+/-! ### the balanced-token matcher and the consumers built on it -/
+
+/-- `[[ … ]]`, `alignas( … )`, `__declspec( … )`: the matcher started with the opener already
+    read consumes properly nested content and the matching closer, whatever the content -/
+theorem C13_balanced_region (env : Env) (o0 : CTok) (clty : String)
+    (hl0 : Gen.balancedTokenMap.lookup o0.type = some clty)
+    (content : List Tok) (closer : Tok) (hn : Nested (content.map (·.type))) (hc : closer.type = clty)
+    (w : World) (b' : Buf) (F : Nat) (hy : Yields env.cfg w.buf (content ++ [closer]) b') (hF : content.length + 1 ≤ F) :
+    ∃ (w' : World) (res : List CTok), interp env (P.consumeBalancedTokens (F + 1) [o0]) w = (w', .ok res) ∧
+      w'.buf = b' ∧ SameParse w w' ∧ res.map CTok.tv = o0.tv :: (content.map Tok.tv ++ [closer.tv]) :=
+  consumeBalanced_region env o0 clty hl0 content closer hn hc w b' F hy hF
+
+/-- `_consume_declspec`: `( content )` -/
+theorem C13_declspec_resumes (env : Env) (op : Tok) (content : List Tok) (closer : Tok)
+    (hop : op.type = "(") (hn : Nested (content.map (·.type))) (hc : closer.type = ")")
+    (w : World) (b' : Buf) (F : Nat) (hy : Yields env.cfg w.buf (op :: (content ++ [closer])) b')
+    (hF : content.length + 1 ≤ F) :
+    ∃ w', interp env (P.consumeDeclspec (F + 1)) w = (w', .ok ()) ∧ w'.buf = b' ∧ SameParse w w' := by
+  cases hy with
+  | cons htok hrest =>
+    rename_i b1
+    have hho := handOut_same ({ w with buf := b1 } : World) op
+    obtain ⟨hsame0, hbuf, hty, _⟩ := hho
+    have hsame := (SameParse.setBuf w b1).trans hsame0
+    have hl0 : Gen.balancedTokenMap.lookup (({ w with buf := b1 } : World).handOut op).1.type = some ")" := by
+      rw [hty, hop]; decide
+    obtain ⟨w', res, hw, hb, hsp, _⟩ := consumeBalanced_region env _ ")" hl0 content closer hn hc _ b' F
+      (by rw [hbuf]; exact hrest) hF
+    refine ⟨w', ?_, hb, hsame.trans hsp⟩
+    unfold P.consumeDeclspec
+    simp only [bind, interp_bind, interp_nextTokenMustBe_ok env ["("] w op b1 htok (by rw [hop]; decide), hw]
+    rfl
+
+/-- `_consume_gcc_attribute`: `(( content ))` -/
+theorem C13_gcc_attribute_resumes (env : Env) (op0 op1 : Tok) (content : List Tok) (c1 c0 : Tok)
+    (hop0 : op0.type = "(") (hop1 : op1.type = "(") (hn : Nested (content.map (·.type)))
+    (hc1 : c1.type = ")") (hc0 : c0.type = ")")
+    (w : World) (b' : Buf) (F : Nat) (hy : Yields env.cfg w.buf (op0 :: op1 :: (content ++ [c1] ++ [c0])) b')
+    (hF : content.length + 2 ≤ F) :
+    ∃ w', interp env (P.consumeGccAttribute (F + 1)) w = (w', .ok ()) ∧ w'.buf = b' ∧ SameParse w w' := by
+  cases hy with
+  | cons htok0 hrest0 =>
+    rename_i b1
+    cases hrest0 with
+    | cons htok1 hrest =>
+      rename_i b2
+      have hho0 := handOut_same ({ w with buf := b1 } : World) op0
+      obtain ⟨hsame0, hbuf0, hty0, _⟩ := hho0
+      have hsameA := (SameParse.setBuf w b1).trans hsame0
+      generalize hwA : (({ w with buf := b1 } : World).handOut op0).2 = wA at *
+      generalize hcA : (({ w with buf := b1 } : World).handOut op0).1 = cA at *
+      have htok1' : tokenEofOk env.cfg wA.buf = .ok (some op1, b2) := by rw [hbuf0]; exact htok1
+      have hho1 := handOut_same ({ wA with buf := b2 } : World) op1
+      obtain ⟨hsame1, hbuf1, hty1, _⟩ := hho1
+      have hsameB := (SameParse.setBuf wA b2).trans hsame1
+      generalize hwB : (({ wA with buf := b2 } : World).handOut op1).2 = wB at *
+      generalize hcB : (({ wA with buf := b2 } : World).handOut op1).1 = cB at *
+      have hlA : Gen.balancedTokenMap.lookup cA.type = some ")" := by rw [hty0, hop0]; decide
+      have hlB : Gen.balancedTokenMap.lookup cB.type = some ")" := by rw [hty1, hop1]; decide
+      have hst : balStack0 [cA, cB] = [")", ")"] := by simp [balStack0, hlA, hlB]
+      have hrun : ∀ cts : List CTok, cts.map CTok.tv = (content ++ [c1] ++ [c0]).map Tok.tv →
+          ∃ a, RunsTo P.balStep ([cA, cB], balStack0 [cA, cB]) cts a := by
+        intro cts hcts
+        obtain ⟨x1, cc0, hs0, _, hcc0, hx1⟩ := tv_split_last (xs := content ++ [c1]) (y := c0) hcts
+        obtain ⟨x2, cc1, hs1, hx2, hcc1, _⟩ := tv_split_last (xs := content) (y := c1) hx1
+        subst hs0; subst hs1
+        rw [hst]
+        exact ⟨_, balanced_region2_runs cA cB ")" ")" hlA hlB x2 cc1 cc0 (by rw [hx2]; exact hn)
+          (by rw [hcc1, hc1]) (by rw [hcc0, hc0])⟩
+      obtain ⟨w', res, hw, hb, hsp, _⟩ := consumeBalanced_of_runs env [cA, cB] (content ++ [c1] ++ [c0]) wB b' F
+        (by rw [hbuf1]; exact hrest) (by simp; omega) hrun
+      refine ⟨w', ?_, hb, (hsameA.trans hsameB).trans hsp⟩
+      unfold P.consumeGccAttribute
+      simp only [bind, interp_bind, interp_nextTokenMustBe_ok env ["("] w op0 b1 htok0 (by rw [hop0]; decide), hwA, hcA,
+        interp_nextTokenMustBe_ok env ["("] wA op1 b2 htok1' (by rw [hop1]; decide), hwB, hcB, hw]
+      rfl
+
+/-- `_consume_static_assert`: `( content )` with `content` balanced for parentheses -/
+theorem C13_static_assert_resumes (env : Env) (op : Tok) (content : List Tok) (closer : Tok)
+    (hop : op.type = "(") (hb : Balanced "(" ")" content) (hc : closer.type = ")")
+    (w : World) (b' : Buf) (F : Nat) (hy : Yields env.cfg w.buf (op :: (content ++ [closer])) b')
+    (hF : content.length + 1 ≤ F) :
+    ∃ w', interp env (P.consumeStaticAssert (F + 1)) w = (w', .ok ()) ∧ w'.buf = b' ∧ SameParse w w' := by
+  cases hy with
+  | cons htok hrest =>
+    rename_i b1
+    have hho := handOut_same ({ w with buf := b1 } : World) op
+    obtain ⟨hsame0, hbuf, _, _⟩ := hho
+    have hsame := (SameParse.setBuf w b1).trans hsame0
+    obtain ⟨w', hw, hb', hsp⟩ := C13_discard_resumes env "(" ")" (by decide) content closer hb hc _ b' F
+      (by rw [hbuf]; exact hrest) hF
+    refine ⟨w', ?_, hb', hsame.trans hsp⟩
+    unfold P.consumeStaticAssert
+    simp only [bind, interp_bind, interp_nextTokenMustBe_ok env ["("] w op b1 htok (by rw [hop]; decide), hw]
+
+
+/-! non-vacuity: `a ( [ b ] ) < c >` is properly nested for the regenerated table; a bounded
+    stream holding `x )` yields exactly these two tokens -/
+example : Nested ["NAME", "(", "[", "NAME", "]", ")", "<", "NAME", ">"] :=
+  .atom _ _ (by decide) (by decide)
+    (.group "(" ")" ["[", "NAME", "]"] ["<", "NAME", ">"] (by decide)
+      (.group "[" "]" ["NAME"] [] (by decide) (.atom _ _ (by decide) (by decide) .nil) .nil)
+      (.group "<" ">" ["NAME"] [] (by decide) (.atom _ _ (by decide) (by decide) .nil) .nil))
+
+theorem tokenEofOk_of_pop (cfg : LexCfg) (b : Buf) (t : Tok) (rest : List Tok)
+    (h : popSignificant isDiscard b.tokbuf = some (t, rest)) :
+    tokenEofOk cfg b = .ok (some t, { b with tokbuf := rest }) := by
+  simp only [tokenEofOk, fuelFor, nextTok, h]
+
+example (cfg : LexCfg) :
+    Yields cfg { tokbuf := [exTok "NAME", exTok "WHITESPACE", exTok ")"], lex := { rest := [] }, bounded := true }
+      [exTok "NAME", exTok ")"] { tokbuf := [], lex := { rest := [] }, bounded := true } :=
+  .cons (tokenEofOk_of_pop cfg _ (exTok "NAME") [exTok "WHITESPACE", exTok ")"] (by decide))
+    (.cons (tokenEofOk_of_pop cfg _ (exTok ")") [] (by decide)) (.nil _))
+
 end Cxx
